@@ -159,11 +159,13 @@ StepRequest(e) ==
       \* queued for an earlier incarnation of the same peer id -- redoCh -- is honoured late)
       \* pickIncrAvailablePeer checks the range under the pool's lock, the requester stores the
       \* peer id after releasing it: a status that narrows the range can slip in between
-      forced == IF e.h \in ReqHeights(x) /\ x.req[e.h].peer = Nil THEN [x EXCEPT !.req[e.h].peer = e.p] ELSE x
+      \* RetryTimeout / LostRedo (deviations of the code): a requester without a block may re-pick at any
+      \* time -- its 30 s retry timer fired (requestRetrySeconds), which also heals a requester whose
+      \* peer was removed before the requester had stored the peer id (removePeer finds nobody to redo)
+      forced == IF e.h \in ReqHeights(x) /\ x.req[e.h].blk = NilBlk THEN [x EXCEPT !.req[e.h].peer = e.p] ELSE x
   IN /\ Install(e, {x, forced}, blocks, gst,
-                FailIf(e.p \in DOMAIN lp.peers
-                       /\ ~(e.h \in ReqHeights(x) /\ x.req[e.h].peer \in {e.p, Nil}),
-                       D("Request to a peer the spec's requester did not pick"))
+                FailIf(e.p \in DOMAIN lp.peers /\ ~(e.h \in ReqHeights(x) /\ (x.req[e.h].blk = NilBlk \/ x.req[e.h].peer = e.p)),
+                       D("Request for a height whose requester holds a block or does not exist"))
                 \cup FailIf([p |-> e.p, h |-> e.h] \notin wide, D("Request to a peer that never reported that height")), {}, {})
      /\ UNCHANGED <<tT, honest, blocks, gst, gstore, hand, wide>>
 
